@@ -111,6 +111,7 @@ var e2eBackend struct {
 	body     []byte
 	status   int
 	respBody []byte
+	trailer  bool      // the backend response announces and sends a trailer
 	log      []e2eSeen // every forwarded request, in arrival order at the backend
 }
 
@@ -137,8 +138,15 @@ func e2eRoundTrip(t *http.Transport, r *http.Request) (*http.Response, error) {
 	h.Set("Content-Type", "application/x-verif") // otherwise the h2 server sniffs the (symbolic) body
 	h.Add("Set-Cookie", "a=1")
 	h.Add("Set-Cookie", "b=2")
-	return &http.Response{StatusCode: e2eBackend.status, ProtoMajor: 1, ProtoMinor: 1, Header: h,
-		Body: io.NopCloser(bytes.NewReader(e2eBackend.respBody)), ContentLength: int64(len(e2eBackend.respBody)), Request: r}, nil
+	resp := &http.Response{StatusCode: e2eBackend.status, ProtoMajor: 1, ProtoMinor: 1, Header: h,
+		Body: io.NopCloser(bytes.NewReader(e2eBackend.respBody)), ContentLength: int64(len(e2eBackend.respBody)), Request: r}
+	if e2eBackend.trailer {
+		// a chunked response with a trailer: length unknown, trailer announced, filled after the body
+		resp.ContentLength = -1
+		resp.TransferEncoding = []string{"chunked"}
+		resp.Trailer = http.Header{"X-Checksum": {"c0ffee"}}
+	}
+	return resp, nil
 }
 
 type e2eHash struct{ data []byte }
@@ -167,7 +175,7 @@ func e2eH2(full bool) {
 	flagMaxHTTP2PriorityFrames = nil
 	nLimits := 1
 	if full {
-		nLimits = 3
+		nLimits = 2
 	}
 	if k := vRange("flag.maxPriorityFrames", 0, nLimits); k > 0 {
 		v := []uint{0, 0, 1, 5}[k]
@@ -190,9 +198,6 @@ func e2eH2(full bool) {
 	// ---- the client: TLS ClientHello, then HTTP/2
 	// the ClientHello space itself is C01/C02/C04's subject: here two versions x two cipher lists
 	ver := uint16(0x0303)
-	if full {
-		ver = []uint16{0x0303, 0x0301}[vRange("hello.version", 0, 1)]
-	}
 	cipher := []uint16{0x1301, 0x0a0a}[vRange("hello.cipher", 0, 1)]
 	hb := []byte{byte(ver >> 8), byte(ver)}
 	hb = append(hb, make([]byte, 32)...)
@@ -255,10 +260,11 @@ func e2eH2(full bool) {
 
 	e2eBackend.n, e2eBackend.header, e2eBackend.body = 0, nil, nil
 	e2eBackend.status = 200
-	if full {
-		e2eBackend.status = []int{200, 404}[vRange("backend.status", 0, 1)]
+	if full && vBool("backend.notFound") {
+		e2eBackend.status = 404
 	}
 	e2eBackend.respBody = vBytes("backend.body", 2)
+	e2eBackend.trailer = full && vBool("backend.trailer")
 
 	c := newE2EConn()
 	c.feed(rec, frames)
@@ -271,16 +277,23 @@ func e2eH2(full bool) {
 	var respData []byte
 	var xBackend string
 	cookies := 0
+	trailerSeen, endedOnce := "", 0
+	dec := hpack.NewDecoder(4096, nil)
 	for _, f := range e2eParse(c.written()) {
 		if f.id != 1 {
 			continue
 		}
 		switch f.typ {
 		case 1:
-			fields, err := hpack.NewDecoder(4096, nil).DecodeFull(f.payload)
+			fields, err := dec.DecodeFull(f.payload)
 			vAssert(err == nil, "response-headers-decode")
+			if f.flags&0x1 != 0 {
+				endedOnce++
+			}
 			for _, x := range fields {
 				switch x.Name {
+				case "x-checksum":
+					trailerSeen = x.Value
 				case ":status":
 					status = x.Value
 				case "x-backend":
@@ -291,6 +304,9 @@ func e2eH2(full bool) {
 			}
 		case 0:
 			respData = append(respData, f.payload...)
+			if f.flags&0x1 != 0 {
+				endedOnce++
+			}
 		}
 	}
 	probe := probes && strings.HasPrefix(ua, "kube-probe/")
@@ -342,6 +358,13 @@ func e2eH2(full bool) {
 		vAssert(status == wantStatus, "status-intact")
 		vAssert(len(respData) == 2 && vAnd(respData[0] == e2eBackend.respBody[0], respData[1] == e2eBackend.respBody[1]), "response-body-intact")
 		vAssert(xBackend == "b1" && cookies == 2, "response-header-lines-intact")
+		vAssert(endedOnce == 1, "response-ends-the-stream-exactly-once")
+		if e2eBackend.trailer {
+			vReach("backend-trailer")
+			vAssert(trailerSeen == "c0ffee", "response-trailer-intact")
+		} else {
+			vAssert(trailerSeen == "", "no-trailer-invented")
+		}
 	}
 	// ---- shutdown releases everything (C11)
 	c.hangup()
